@@ -246,7 +246,7 @@ void disasm_range_tms9900(
   uint32_t end)
 {
   char instruction[128];
-  char bytes[10];
+  char bytes[16];
   int cycles_min = 0, cycles_max = 0;
   int count;
   int n;
@@ -268,7 +268,8 @@ void disasm_range_tms9900(
       &cycles_max);
 
     bytes[0] = 0;
-    for (n = 0; n < count; n++)
+    // One word per two bytes of the instruction (at most three).
+    for (n = 0; n < count && n < 6; n += 2)
     {
       char temp[8];
       snprintf(temp, sizeof(temp), "%04x ", memory->read16(start + n));
